@@ -101,12 +101,25 @@ func genStream(t *rapid.T) StreamCase {
 	tamper := rapid.IntRange(0, 2).Draw(t, "tamper") != 0
 	oneWay := rapid.IntRange(0, 3).Draw(t, "oneWay") == 0
 	n := rapid.IntRange(1, 14).Draw(t, "nsteps")
+	// burst shape: a run of writes, then the edits, then anything - so that edits find frames in flight
+	burst := tamper && rapid.Bool().Draw(t, "burst")
+	nw, nm := 0, 0
+	if burst {
+		nw = rapid.IntRange(1, 4).Draw(t, "burstWrites")
+		nm = rapid.IntRange(1, 2).Draw(t, "burstEdits")
+		n += nw + nm
+	}
 	for i := 0; i < n; i++ {
 		s := Step{}
 		if !oneWay {
 			s.Lane = rapid.IntRange(0, 1).Draw(t, "lane")
 		}
 		k := rapid.IntRange(0, 9).Draw(t, "op")
+		if burst && i < nw {
+			k = 0
+		} else if burst && i < nw+nm {
+			k = 9
+		}
 		switch {
 		case k < 4:
 			s.Op = "w"
@@ -133,7 +146,8 @@ type laneModel struct {
 	plens     []int // plaintext length of every data frame written on the lane, in order
 	dead      bool  // the reader saw an error (a real caller closes the connection then)
 	err       error
-	kind      string // kind of the first man-in-the-middle edit applied to the lane
+	kind      string // kind of the first man-in-the-middle edit that made the delivered stream differ
+	pending   string // kind of an edit whose effect shows only once more is written or the lane closes
 	zeroRuns  int
 	smallRead bool
 	reads     int
@@ -295,7 +309,11 @@ func runStream(c StreamCase, x *h.Ctx) {
 			m.zeroRuns = 0
 			end := len(m.got) + n
 			if tampered && end > legit {
-				return !x.Fail("secretconn-accepts-tampered-frame:"+m.kind, "%s: lane %d was edited (%s) so that only %d plaintext bytes precede the first altered frame, but the reader was handed %d bytes (err=%v)", where, d, m.kind, legit, end, err)
+				kind := m.kind
+				if kind == "" {
+					kind = m.pending
+				}
+				return !x.Fail("secretconn-accepts-tampered-frame:"+kind, "%s: lane %d was edited (%s) so that only %d plaintext bytes precede the first altered frame, but the reader was handed %d bytes (err=%v)", where, d, kind, legit, end, err)
 			}
 			if end > len(m.exp) || !bytes.Equal(buf[:n], m.exp[len(m.got):end]) {
 				return !x.Fail("secretconn-stream-differs", "%s: lane %d: Read(buf %d) returned %d bytes that are not bytes [%d,%d) of the %d written (tampered=%v)", where, d, bufSize, n, len(m.got), end, len(m.exp), tampered)
@@ -376,6 +394,8 @@ func runStream(c StreamCase, x *h.Ctx) {
 			if applyMitm(w, Step{Kind: s.Kind, Lane: d, I: s.I, J: s.J, Bit: s.Bit}) && m.kind == "" {
 				if _, t := analyse(w, d, m); t {
 					m.kind = s.Kind
+				} else if m.pending == "" {
+					m.pending = s.Kind
 				}
 			}
 		}
@@ -403,7 +423,7 @@ func runStream(c StreamCase, x *h.Ctx) {
 		}
 		if tampered {
 			if m.kind == "" {
-				m.kind = "close" // delivered stream shorter than sent only because of the close (cannot happen without an edit)
+				m.kind = m.pending // e.g. the last frame in flight was dropped: visible only at the close
 			}
 			x.Label("tamper:" + m.kind)
 			if len(m.got) == legit {
